@@ -208,6 +208,50 @@ fn pairs_corpus(ctx: &mut Ctx, f: &mut dyn FnMut(&mut Ctx, &Value, &Value)) {
     }
 }
 
+/// Every numeric string of the corpora against the exact number it denotes and that number's
+/// two neighbouring doubles: pins the string-to-number conversion to the last bit.
+fn denoted_number_pairs(ctx: &mut Ctx, f: &mut dyn FnMut(&mut Ctx, &Value, &Value)) {
+    let mut strs: Vec<String> = STR_VALUES.iter().map(|s| s.to_string()).collect();
+    strs.extend(s_numeric_strings());
+    for t in ["0x1000000000000081", "0x10000000000000c1", "0xfffffffffffff801", "0b100000000000000000000000000000000000000000000000000001", "0o400000000000000000001", "0x7fffffffffffffff", "0xffffffffffffffff", "0x20000000000000000000000001",
+              "9007199254740993", "9007199254740995", "0.1", "0.30000000000000004", "1.7976931348623157e308", "4.9e-324", "2.2250738585072011e-308", "123456789012345678901234567890", "0.000000000000000000000000000000000000001e39", "1e23", "8.41e21", "2.2250738585072012e-308", "5e-324"] {
+        strs.push(t.to_string());
+    }
+    let mut idx = 0u64;
+    for st in strs.iter() {
+        idx += 1;
+        if !ctx.mine(idx) {
+            continue;
+        }
+        if let refsem::SN::Num(x) = refsem::string_to_number(st) {
+            if !x.is_finite() {
+                continue;
+            }
+            let bits = x.to_bits();
+            let mut cands = vec![x];
+            if x != 0.0 {
+                cands.push(f64::from_bits(bits + 1));
+                cands.push(f64::from_bits(bits - 1));
+            }
+            for c in cands {
+                if !c.is_finite() {
+                    continue;
+                }
+                // spell the number as serde_json would read it back (integers as integers)
+                let nv = match refsem::mk_number(c) {
+                    MOut::Val(v) => v,
+                    _ => continue,
+                };
+                let sv = json!(st);
+                f(ctx, &sv, &nv);
+                f(ctx, &nv, &sv);
+                f(ctx, &json!([st]), &nv);
+            }
+            ctx.cell("denoted-number-pairs");
+        }
+    }
+}
+
 fn rand_pair(ctx: &mut Ctx) -> (Value, Value) {
     let r = &mut ctx.rng;
     let a = rand_value(r, 2);
@@ -286,6 +330,7 @@ fn c07_pair(ctx: &mut Ctx, a: &Value, b: &Value) {
 
 fn c07_core(ctx: &mut Ctx) {
     pairs_corpus(ctx, &mut |c, a, b| c07_pair(c, a, b));
+    denoted_number_pairs(ctx, &mut |c, a, b| c07_pair(c, a, b));
     let n = ctx.budget(6_000, 1_200_000);
     for _ in 0..n {
         let (a, b) = rand_pair(ctx);
@@ -462,6 +507,7 @@ fn c09_triple(ctx: &mut Ctx, a: &Value, b: &Value, c: &Value) {
 
 fn c09_core(ctx: &mut Ctx) {
     pairs_corpus(ctx, &mut |c, a, b| c09_pair(c, a, b));
+    denoted_number_pairs(ctx, &mut |c, a, b| c09_pair(c, a, b));
     let small = v_small();
     let mut idx = 0u64;
     let stride = if ctx.thorough() { 1 } else { 7 };
@@ -551,7 +597,8 @@ fn c10_core(ctx: &mut Ctx) {
     let nums = v_numbers();
     let mut pool: Vec<Value> = nums.clone();
     pool.extend(v_scalars());
-    for s in ["", " ", "1", " 1 ", "12px", "1e3", "1e", "1e+", "0x10", ".5", "5.", "Infinity", "-Infinity", "inf", "nan", "1-2", "1e5e5", "1.2.3", "abc", "+1", "-1", "1e400", "9007199254740993", "\t2\n", "0b11", "3,4"] {
+    for s in ["", " ", "1", " 1 ", "12px", "1e3", "1e", "1e+", "0x10", ".5", "5.", "Infinity", "-Infinity", "inf", "nan", "1-2", "1e5e5", "1.2.3", "abc", "+1", "-1", "1e400", "9007199254740993", "\t2\n", "0b11", "3,4",
+              "0x1000000000000081", "0x10000000000000c1", "0xfffffffffffff801", "0x20000000000000000000000001", "0o400000000000000000001", "0.30000000000000004", "2.2250738585072011e-308", "123456789012345678901234567890", "1e23", "8.41e21"] {
         pool.push(json!(s));
     }
     for t in ["[]", "[3]", "[\"3\"]", "[1,2]", "[[2]]", "[null]", "{}", "[\"12px\"]", "[\" 2 \"]", "[1.5]"] {
